@@ -316,7 +316,7 @@ func (e *Engine) invokeSpecial(st *State, recv IfaceV, method string, args []Val
 		return e.shaMethod(st, recv, method, args)
 	}
 	if recv.typ == ctxTokT {
-		return e.ctxMethod(st, method)
+		return e.ctxMethod(st, recv, method)
 	}
 	if recv.typ == e.opaqueErrT {
 		switch method {
